@@ -14,6 +14,17 @@ Theorem C15_reads_preserved : forall body o, mutating o = false -> In o body -> 
 Proof. exact reads_preserved. Qed.
 Print Assumptions C15_reads_preserved.
 
+(* the same with data (Model/QueryStub.v, second part): whatever the body attempts, in any order and number, the peer's
+   view of the transaction - write set, event, validation parameters, private data - is exactly as the body found it *)
+Theorem C15_wrapped_leaves_peer : forall body p, fst (run_with wrapped_step p body) = p.
+Proof. exact wrapped_leaves_peer. Qed.
+Print Assumptions C15_wrapped_leaves_peer.
+
+(* ... and the body reads exactly what it would read unwrapped: the committed ledger, never its own attempted writes *)
+Theorem C15_wrapped_reads_same : forall body p, snd (run_with wrapped_step p body) = snd (run_with peer_step p body).
+Proof. exact wrapped_reads_same. Qed.
+Print Assumptions C15_wrapped_reads_same.
+
 Example C15_example :
   (effects (run_query QTask true true [1; 20; 2; 8; 4; 21]%N), effects (through false [1; 20; 2; 8]%N)) = ([], [1; 2; 8]%N).
 Proof. vm_compute. reflexivity. Qed.
